@@ -35,7 +35,9 @@ def setup_worker():
     from mako import exceptions
     from mako.template import Template
 
-    _st.update(Template=Template, exceptions=exceptions)
+    from mako.lookup import TemplateLookup
+
+    _st.update(Template=Template, exceptions=exceptions, TemplateLookup=TemplateLookup)
 
 
 class LR:
@@ -293,6 +295,14 @@ class Gen:
         self.body(ind + 1, depth + 1, dict(scope))
         if r.random() < 0.7:
             self.g_raise(ind + 1, depth, scope, kinds=["ValueError", "IndexError", "ZeroDivisionError"])
+        if r.random() < 0.35:
+            # several except clauses, as in Python: the first that matches is taken
+            for pre in r.sample(["KeyError", "ValueError", "(IndexError, OSError)", "ZeroDivisionError"], r.randint(1, 2)):
+                self.ctl("except %s:" % pre)
+                self.p(ind, "except %s:" % pre)
+                self.p(ind + 1, "marks.add('exception')")
+                self.p(ind + 1, "marks.add('several-excepts')")
+                self.body(ind + 1, depth + 1, dict(scope))
         kind = r.choice(["ValueError", "(IndexError, ZeroDivisionError)", "Exception"])
         named = r.random() < 0.5
         self.ctl("except %s%s:" % (kind, " as err_" if named else ""))
@@ -460,7 +470,8 @@ def run_one(text, src, res, rc, strictness=None):
         got = ("exc", type(e).__name__)
     res.count("renders_compared")
     for m in marks:
-        res.count({"loopattr": "loop_attribute_reads", "exception": "exception_paths", "return": "return_paths", "break": "break_paths"}[m])
+        res.count({"loopattr": "loop_attribute_reads", "exception": "exception_paths", "return": "return_paths", "break": "break_paths",
+                   "several-excepts": "several_except_clauses_taken"}[m])
     if got != expected or ctx2["acc"] != ctx["acc"]:
         res.violate(
             "control-semantics",
@@ -514,15 +525,38 @@ def run_enable_loop(res):
         ("<% loop = 5 %>${loop}", {"enable_loop": False}, {}, "5"),
         ("% for loop in (1, 2):\n${loop}\n% endfor\n", {"enable_loop": False}, {}, "1\n2\n"),
     ]
+    # the full matrix: Template/TemplateLookup option x <%page enable_loop=...> (the page attribute, when written,
+    # decides; otherwise the option; the default is on)
+    for opt in (None, True, False):
+        for page in (None, "True", "False"):
+            eff = (page == "True") if page is not None else (opt is not False)
+            if page == "False" and opt is not False:
+                # the page switches the loop context off in a template whose option has it on: whether `loop` may then
+                # be passed to render() is not stated (the reserved names still list it): not asserted
+                continue
+            kw = {} if opt is None else {"enable_loop": opt}
+            head = "" if page is None else '<%%page enable_loop="%s"/>\n' % page
+            pre = "\n" if head else ""
+            # (with the loop context on, `loop` is a reserved name and may not be passed to render)
+            cases.append((head + body, kw, {} if eff else {"loop": fake}, pre + ("0|\n1|\n" if eff else "CTX|\nCTX|\n")))
+            if not eff:
+                cases.append((head + "${loop}", kw, {"loop": "plain"}, pre + "plain"))
+                cases.append((head + "<%def name=\"d()\">${loop}</%def>${d()}", kw, {"loop": "plain"}, pre + "plain"))
     for text, kw, ctx, exp in cases:
         res.evaluations += 1
         res.count("enable_loop_variants")
-        try:
-            out = T(text, **kw).render_unicode(**ctx)
-        except Exception as e:
-            out = "%s: %s" % (type(e).__name__, e)
-        if out != exp:
-            res.violate("enable-loop", "template %r with %r rendered %r, expected %r" % (text, kw, out, exp))
+        for via in ("Template", "TemplateLookup"):
+            try:
+                if via == "Template":
+                    out = T(text, **kw).render_unicode(**ctx)
+                else:
+                    lk = _st["TemplateLookup"](**kw)
+                    lk.put_string("el.html", text)
+                    out = lk.get_template("el.html").render_unicode(**ctx)
+            except Exception as e:
+                out = "%s: %s" % (type(e).__name__, e)
+            if out != exp:
+                res.violate("enable-loop", "template %r with %r (through %s) rendered %r, expected %r" % (text, kw, via, out, exp))
         res.nontrivial("el", text, sorted(kw))
 
 
